@@ -11,39 +11,39 @@ from . import ExtractError, parse, find_class, find_func, strip_doc, lean_nat_li
 TARGET = 'Uri'
 
 GENERIC_SKELETON = """\
-auth = getattr(self, '§', '§') or '§'
-if auth:
-    auth = quote(auth, safe='§')
+v1 = getattr(self, '§', '§') or '§'
+if v1:
+    v1 = quote(v1, safe='§')
     if self.password:
-        auth += '§' + quote(self.password, safe='§')
-    auth += '§'
+        v1 += '§' + quote(self.password, safe='§')
+    v1 += '§'
 else:
     assert not getattr(self, '§', None), '§'
-uri = '§' % (self.dbName, auth)
+v2 = '§' % (self.dbName, v1)
 if self.host:
     if '§' in self.host and (not self.host.startswith('§')):
-        uri += '§' % self.host
+        v2 += '§' % self.host
     else:
-        uri += self.host
+        v2 += self.host
 if self.port:
-    uri += '§' % self.port
-uri += '§'
-db = self.db
-if db.startswith('§'):
-    db = db[1:]
-return uri + quote(db, safe='§')"""
+    v2 += '§' % self.port
+v2 += '§'
+v3 = self.db
+if v3.startswith('§'):
+    v3 = v3[1:]
+return v2 + quote(v3, safe='§')"""
 
 SQLITE_SKELETON = """\
-path = self.filename
-if path == '§':
-    path = '§'
+v1 = self.filename
+if v1 == '§':
+    v1 = '§'
 else:
-    if path.startswith('§'):
-        path = '§' + path
+    if v1.startswith('§'):
+        v1 = '§' + v1
     else:
-        path = '§' + path
-    path = quote(path, safe='§')
-return '§' % path"""
+        v1 = '§' + v1
+    v1 = quote(v1, safe='§')
+return '§' % v1"""
 
 SQLITE_OPEN_SKELETON = """\
 assert host is None and port is None, '§' % (host, port and '§' % port or '§')
@@ -63,8 +63,19 @@ CONNECTIONS = [
 
 
 class _Abstract(ast.NodeTransformer):
-    def __init__(self):
+    """string literals -> '§' (collected in source order); the parameters keep their names, every other local is
+    renamed to v1, v2 … in order of first occurrence, so that renaming a local does not change the skeleton"""
+
+    def __init__(self, params=()):
         self.consts = []
+        self.names = {p: p for p in params}
+
+    def visit_Name(self, node):
+        if node.id in self.names or isinstance(node.ctx, ast.Store):
+            if node.id not in self.names:
+                self.names[node.id] = 'v%d' % (1 + sum(1 for v in self.names.values() if v.startswith('v') and v[1:].isdigit()))
+            return ast.copy_location(ast.Name(id=self.names[node.id], ctx=node.ctx), node)
+        return node
 
     def visit_Call(self, node):
         # quote(x) == quote(x, safe='/')   (urllib.parse.quote's default)
@@ -81,7 +92,7 @@ class _Abstract(ast.NodeTransformer):
 
 
 def skeleton(fn):
-    t = _Abstract()
+    t = _Abstract([a.arg for a in fn.args.args])
     body = [t.visit(s) for s in strip_doc(fn.body)]
     for s in body:
         ast.fix_missing_locations(s)
